@@ -46,6 +46,9 @@ def check(ctx):
         ctx.ob("R-2", "no-override:%s" % imp["self_ty"], not fns, "impl TaggedCborSerializable for %s defines only TAG" % imp["self_ty"],
                where=imp["span"], detail={"overrides": fns})
     sub = _Sub(ctx, "R-2")
+    # what both byte-level decoders look at is the parsed item itself: nothing strips or adds a tag before the tag check /
+    # before the untagged decoders (which reject tags, R-3) see it
+    c13.check_read_to_value(sub, "R-2")
     c13._check_from_tagged(sub, prog.fn(TSER + "::from_tagged_slice"))
     c13._check_to_vec(sub, prog.fn(TSER + "::to_tagged_vec"), tagged=True)
 
@@ -103,6 +106,7 @@ class _Sub:
     def __init__(self, ctx, rule):
         self.ctx = ctx
         self.rule = rule
+        self.prog = ctx.prog
 
     def ob(self, rule, key, ok, what, **kw):
         return self.ctx.ob(self.rule, key, ok, what, **kw)
